@@ -75,3 +75,9 @@ claim("C16", "metamorphic property-based testing: insertion-order permutation, h
       "identical text after permuting every container's insertion order and in interpreters started with PYTHONHASHSEED 1 and 4242 rebuilding the value from its blueprint; sort_keys off => "
       "reloaded dict order is insertion order; dump(load(dump(x))) == dump(x) with either loader; every document defines exactly the anchors id001..idNNN.",
       "Trusted: Hypothesis, vlib/compare.py, the helper protocol in vlib/c16_helper.py. Multi-member sets under sort_keys=False are outside the property and excluded by construction.")
+claim("C07", "metamorphic property-based testing over delivery forms and read-size schedules (Hypothesis) plus exhaustive single split positions of small documents",
+      "Generated search: valid / reader-clean erroneous / single-reader-defect texts, padded to straddle refill boundaries, delivered as str, UTF-8, UTF-8+BOM, UTF-16-LE/BE+BOM bytes, StringIO, BytesIO and "
+      "short-read text/byte streams with drawn read-size schedules (splits inside UTF-8 sequences, UTF-16 units and surrogate pairs, between CR and LF, in the BOM) x scan/parse/compose_all/load_all x both "
+      "back-ends; oracle: every form gives the str form's item sequence incl. line/column of every mark (index up to the BOM shift) and the same final error; reader defects are reported as ReaderError "
+      "with the injected character at the right character offset / an identical byte offset for every chunking, after a prefix of the longest delivery.",
+      "Trusted: Hypothesis and the chunked stream classes in checks/c07.py. LibYAML forms are compared with the LibYAML str form.")
